@@ -89,6 +89,7 @@ pub fn one_case(rng: &mut Rng, o: &GenOpts, prop: &str) -> CaseOut {
     }
     for attempt in 0..3 {
         let mut w = if short { CapW::short(rng.next_u64()) } else { CapW::new() };
+        w.interrupts = short && attempt == 1;
         let t0 = Utc::now();
         let r = trap::catch(|| with_record(&ctx, &pieces, |rec| enc.encode(&mut w, rec)));
         let t1 = Utc::now();
@@ -252,8 +253,6 @@ pub fn run(rep: &mut Report) {
             rep.sample(json!({"pattern": out.pattern}));
         }
     });
-    // the verdict can flip between profiles (debug_assertions, overflow checks): repeat in release (both tiers)
-    crate::subrun::merge(rep, "L4V_BIN_RELEASE", "C09", "release");
     if std::env::var("L4V_SUBRUN").is_err() {
         zone_change(rep);
     }
